@@ -620,6 +620,35 @@ CORPUS = [
 ]
 
 
+def daesol_append_failures():
+    """results collected with daesol.append: the collection holds all rows, and the results handed in stay what they were"""
+    out = []
+    try:
+        from scipy.sparse import csc_array
+        from Solverz.num_api.num_eqn import nDAE
+        from Solverz import Rodas, Opt
+        from Solverz.solvers.solution import daesol
+        from Solverz.variable.variables import Vars
+        from Solverz.utilities.address import Address
+        dae = nDAE(csc_array(np.eye(2)), lambda t, y, p: np.array([-y[0], -2.0 * y[1]]), lambda t, y, p: csc_array(np.diag([-1.0, -2.0])), {})
+        a = Address(); a.add("x", 1); a.add("z", 1)
+        with warnings.catch_warnings():
+            warnings.simplefilter("ignore")
+            s1 = Rodas(dae, np.linspace(0, 1, 5), Vars(a, np.array([1.0, 2.0])), Opt())
+            s2 = Rodas(dae, np.linspace(1, 2, 5), s1.Y[-1], Opt())
+        n1, n2 = len(s1.T), len(s2.T)
+        x1 = np.array(s1.Y["x"], copy=True)
+        acc = daesol(); acc.append(s1); acc.append(s2)
+        if np.asarray(acc.Y.array).shape[0] != n1 + n2 or len(acc.T) != n1 + n2:
+            out.append(f"daesol.append: the collection holds {np.asarray(acc.Y.array).shape[0]} state rows for {len(acc.T)} times ({n1} + {n2} appended)")
+        if np.asarray(s1.Y.array).shape[0] != n1 or not np.array_equal(np.asarray(s1.Y["x"]), x1):
+            out.append(f"daesol.append changed a result it was given: the first solution has {np.asarray(s1.Y.array).shape[0]} state rows for its "
+                       f"{n1} times after a second solution was appended to the collection")
+    except Exception as ex:  # noqa
+        out.append(f"daesol.append probe raised {type(ex).__name__}: {str(ex)[:100]}")
+    return out
+
+
 def run(rep, tier, seed):
     rep.cov["trusted_base"] = BASE_TRUST + [
         "correspondence runner harness/checks/c16.py (op generator, state dump canonicalisation)",
@@ -630,6 +659,7 @@ def run(rep, tier, seed):
     nseq, maxops = (400, 30) if tier == "quick" else (12000, 30)
     R, hist = run_all(seed, nseq, maxops, 0.25, CORPUS)
     seqs, fails = R.seqs, R.fails
+    extra_fails = daesol_append_failures()
     broken, diffs = [], []
     try:
         diffs = R.compare()
@@ -656,7 +686,10 @@ def run(rep, tier, seed):
             continue
         seen_msgs.add(key)
         rep.violation(f"C16 fails on the real code: {m}", dict(kind="op-sequence", ops=seqs[si][1], failing_op=op, message=m))
-    if not fails:
+    for m in extra_fails:
+        rep.violation(f"C16 fails on the real code: {m}", dict(kind="solution-collection", message=m,
+                                                               history="s1 = Rodas(...); s2 = Rodas(...); acc = daesol(); acc.append(s1); acc.append(s2)"))
+    if not fails and not extra_fails:
         for f in failed:
             rep.violation(f"proof obligation no longer checks: {f}; the oracle found no failing input on {len(seqs)} sequences",
                           dict(kind="proof", theorem=f), has_input=False)
